@@ -7,13 +7,35 @@ wrapping arithmetic and its error returns; `Out.trap` / `none`-as-panic results 
 the overflow-checked profile, and Props/C01HandVar.lean shows they are never produced.  Tied to the real code
 by harness group `vars.model` (driver commands `hv.*`, Drv/C01HandVar.lean).
 
+Contents (Rust → Lean):
+* variations.rs  `TupleIndex` / `TupleVariationCount` bit helpers → `tiEmbedded … tvcShared`;
+  generated `TupleVariationHeader::read` + `peak_tuple / intermediate_*_tuple(s) / byte_len` → `tvhRead`, `Hdr.*`;
+  `TupleVariationHeaderIter::next` → `tvhNext`; `TupleVariationData::{tuples, active_tuples_at}`,
+  `TupleVariationIter::next_tuple` → `tvNext`, `tvTrace`, `activeTuples`;
+  `TupleVariation::{peak, has_deltas_for_all_points, point_numbers_and_packed_deltas, compute_scalar,
+  compute_scalar_f32, deltas}` → `TV.*`, `tdInit2`;
+  `read_dense_deltas`, `read_sparse_deltas`, `accumulate_{dense,sparse}_deltas` → `readDense`, `readSparse`, `accumulate*`;
+  `EntryFormat`, `DeltaSetIndexMap::{read, get}` → `dsimRead`, `Dsim.get`;
+  `ItemVariationData::{read, delta_row_len, delta_sets_len, delta_set}`, `ItemDeltas::next` → `ivdRead`, `deltaRowLen`,
+  `Ivd.deltaSet`, `itemDeltasGo`; `ItemVariationStore::{read, compute_delta, compute_float_delta}` → `ivsRead`,
+  `Ivs.deltaWalk`, `Ivs.computeDelta`; `advance_delta`, `item_delta` → `advanceDelta`, `itemDelta`
+* gvar.rs  `Gvar::{read, shared_tuples, data_for_gid, glyph_variation_data, phantom_point_deltas}`,
+  `GlyphVariationData::new`, `find_glyph_and_point_count` → `gvarRead`, `Gv.*`, `gvdNew`, `findGlyph`
+* cvar.rs  `Cvar::{read, variation_data, deltas}` → `cvarVariationData`, `cvarDeltas`
+* hvar.rs / vvar.rs  the seven `*_delta` functions → `metricsDelta`;  mvar.rs `Mvar::metric_delta` → `mvarSearch`,
+  `mvarMetricDelta`;  avar.rs `SegmentMaps::{read, apply}` → `segmentMapsApply`
+
 Conventions: a table is its byte list `d : List Nat`; `usize` is 64 bit (`HandRead.MAXU`); an unchecked
 `a + b` / `a * b` of the source on `usize` values is `uadd` / `umul` (`none` = overflow panic of the strict
 profile); a getter of a `TableRef` (`self.data.read_at(range.start).unwrap()`) is an `Option` whose `none`
 is the `unwrap` panic.  Results that can be a Rust `Err` *or* a panic are values of `R`.
-Arithmetic kernels that C10 / C20 already transcribe are imported: `Checked.tupleScalar`
-(`TupleVariation::compute_scalar`), `Tent.deltaSet` / `Tent.itemDeltas` / `Tent.deltaLoop` /
-`Tent.computeScalar` (item variation store), `GvarLayout.dataRange` / `dataForGid`.
+Arithmetic kernels that C10 / C20 already transcribe are imported, not duplicated: `Checked.tupleScalar`
+(`TupleVariation::compute_scalar`), `Checked.computeDelta` / `Checked.regionScalar` (`compute_delta`,
+`VariationRegion::compute_scalar`), `Checked.avarApply`, `Checked.fxMul` / `fxFromI32` …, `Tent.readW` /
+`Tent.colWidth` (`ItemDeltas`), `GvarLayout.dataForGid` (`data_range_for_gid`).  Where a Rust `?` and a
+possible arithmetic trap are interleaved in one loop (`compute_delta`: `regions.get(i)?` then `accum +=`),
+the model collects the `?` results first and runs the kernel afterwards; this only matters for the order of
+two outcomes of which one (the trap) is proved impossible.
 -/
 import FontVerif.Model.ReadIter
 import FontVerif.Model.HandRead
